@@ -30,6 +30,8 @@ type Env struct {
 	faultWrite bool
 	writes     int
 	readings   []Value
+	window     int // > 0: every reading is at most this many seconds after the first one
+	stallIv    int // > 0: stall rule of DESIGN.md §C13 with this interval (seconds)
 }
 
 type FileNode struct {
@@ -372,6 +374,14 @@ func (e *Engine) addEnvIntrinsics() {
 				lo = env.lastNow
 			}
 			ok := c.s.assume(c.w, mkAndB(mkCmp(OILe, lo.(*Term), v), mkCmp(OILt, v, mkIntC(1<<40))))
+			if ok && env.window > 0 && len(env.readings) > 0 {
+				ok = c.s.assume(c.w, mkCmp(OILe, v, mkIntBin(OAdd, env.readings[0].(*Term), mkIntC(int64(env.window)))))
+			}
+			if ok && env.stallIv > 0 && env.lastNow != nil && c.s.otherInside(c.t, "RollingFileAppender).Write") {
+				// stall rule: no boundary is crossed while another thread is suspended inside Write
+				iv := mkIntC(int64(env.stallIv))
+				ok = c.s.assume(c.w, mkEq(mkIntBin(OIDiv, v, iv), mkIntBin(OIDiv, env.lastNow.(*Term), iv)))
+			}
 			if !ok {
 				c.s.finish("INFEASIBLE", "")
 			}
@@ -748,6 +758,14 @@ func (e *Engine) addEnvIntrinsics() {
 				c.s.unsupported("vClockReading(%d) of %d", i, len(c.s.env.readings))
 			}
 			return c.s.env.readings[i]
+		}
+		in[p+"vClockWindow"] = func(c *callCtx) Value {
+			c.s.env.window = c.int(0)
+			return nil
+		}
+		in[p+"vClockStall"] = func(c *callCtx) Value {
+			c.s.env.stallIv = c.int(0)
+			return nil
 		}
 		in[p+"vFaults"] = func(c *callCtx) Value {
 			c.s.env.faultOpen = c.int(0) != 0
@@ -1266,4 +1284,19 @@ func reflectKind(t types.Type) int {
 		return 25
 	}
 	return 0
+}
+
+// otherInside reports whether a thread other than t has a frame of a function whose name contains sub.
+func (s *State) otherInside(t *Thread, sub string) bool {
+	for _, u := range s.threads {
+		if u == t || u.status != TRunnable {
+			continue
+		}
+		for _, fr := range u.frames {
+			if strings.Contains(fr.fn.String(), sub) {
+				return true
+			}
+		}
+	}
+	return false
 }
